@@ -245,6 +245,10 @@ pub enum Op {
 	FlushDeferred { node: u16 },
 	/// deliver + forward + process events to quiescence, keeping disconnections / async state as is
 	Pump,
+	/// user-requested force close of the chan-th channel by one of its ends
+	ForceClose { chan: u16, by_funder: bool },
+	/// corrupt one byte of the secret of the first revoke_and_ack queued on the link-th non-empty link
+	TamperRevoke { link: u16, byte: u8, xor: u8 },
 }
 
 #[derive(Clone, Debug)]
@@ -263,6 +267,8 @@ pub struct OpWeights {
 	pub async_toggle: u32,
 	pub complete: u32,
 	pub pump: u32,
+	pub force_close: u32,
+	pub tamper_revoke: u32,
 }
 
 pub fn amt_strategy() -> impl Strategy<Value = Amt> + Clone {
@@ -299,6 +305,8 @@ pub fn op_strategy(w: OpWeights) -> impl Strategy<Value = Op> + Clone {
 			.boxed(),
 		),
 		(w.pump, Just(Op::Pump).boxed()),
+		(w.force_close, (any::<u16>(), any::<bool>()).prop_map(|(chan, by_funder)| Op::ForceClose { chan, by_funder }).boxed()),
+		(w.tamper_revoke, (any::<u16>(), 0u8..32, 1u8..=255).prop_map(|(link, byte, xor)| Op::TamperRevoke { link, byte, xor }).boxed()),
 	];
 	v.retain(|(w, _)| *w > 0);
 	proptest::strategy::Union::new_weighted(v)
@@ -427,7 +435,16 @@ pub fn apply(sim: &mut Sim, spec: &WorldSpec, op: &Op) -> &'static str {
 		},
 		Op::SetFee { node, rate } => {
 			let i = pick(*node, n);
-			sim.set_feerate(i, *rate);
+			// Stay inside the library's documented buffers against the update_fee race: a single step raises the
+			// funder's feerate by at most 2x (FEE_SPIKE_BUFFER_FEE_INCREASE_MULTIPLE) and by at most 2530 sat/kw
+			// (the dust-exposure buffer feerate); larger moves happen through successive operations.
+			let cur = {
+				let fe = sim.w.nodes[i].fee_estimator;
+				let ov = fe.target_override.lock().unwrap();
+				ov.get(&lightning::chain::chaininterface::ConfirmationTarget::NonAnchorChannelFee).cloned().unwrap_or(*fe.sat_per_kw.lock().unwrap())
+			};
+			let rate = (*rate).min(cur.saturating_mul(2)).min(cur + 2530);
+			sim.set_feerate(i, rate);
 			sim.timer_tick(i);
 			"setfee"
 		},
@@ -485,6 +502,42 @@ pub fn apply(sim: &mut Sim, spec: &WorldSpec, op: &Op) -> &'static str {
 			nd.chain_monitor.chain_monitor.flush(cnt, &nd.logger);
 			sim.drain(i);
 			"flush-deferred"
+		},
+		Op::ForceClose { chan, by_funder } => {
+			let ci = pick(*chan, sim.chans.len());
+			let c = sim.chans[ci].clone();
+			let (me, peer) = if *by_funder { (c.a, c.b) } else { (c.b, c.a) };
+			if sim.chan_details(me, ci).is_none() {
+				return "forceclose-skipped";
+			}
+			let peer_id = sim.w.node_id(peer);
+			let r = sim.w.nodes[me].node.force_close_broadcasting_latest_txn(&c.id, &peer_id, "harness force close".to_string());
+			sim.rec(SEvent::Api { node: me, what: format!("force_close chan {}", ci), ok: r.is_ok(), detail: format!("{:?}", r) });
+			sim.drain(me);
+			"force-close"
+		},
+		Op::TamperRevoke { link, byte, xor } => {
+			let live: Vec<(usize, usize)> = sim
+				.links
+				.iter()
+				.filter(|(k2, q)| sim.is_connected(k2.0, k2.1) && q.iter().any(|w| matches!(w, Wire::Revoke(_))))
+				.map(|(k2, _)| *k2)
+				.collect();
+			if live.is_empty() {
+				return "tamper-skipped";
+			}
+			let (f, t) = live[pick(*link, live.len())];
+			let q = sim.links.get_mut(&(f, t)).unwrap();
+			let mut secret = [0u8; 32];
+			for w in q.iter_mut() {
+				if let Wire::Revoke(m) = w {
+					m.per_commitment_secret[*byte as usize % 32] ^= *xor;
+					secret = m.per_commitment_secret;
+					break;
+				}
+			}
+			sim.rec(SEvent::Tamper { from: f, to: t, secret });
+			"tamper-revoke"
 		},
 		Op::Pump => {
 			for _ in 0..50 {
